@@ -6,10 +6,15 @@ from . import reports
 from .types import ExpressionToken
 
 
-def wrap_impure(expr, invoke):
+def wrap_impure(expr, invoke, state):
     def fn(*args):
-        expr.value = invoke(*args)
-        return expr.value
+        # The same token is evaluated once per copy of a '.repeat' body, each
+        # time in another state (e.g. with another '.'), so a cached value is
+        # only valid for the state it was computed in. The state is stored
+        # along with the value to keep its id() from being reused.
+        value = invoke(*args)
+        expr.values[id(state)] = (state, value)
+        return value
     return fn
 
 
@@ -25,11 +30,11 @@ class InfixOperator(ExpressionToken):
         super().__init__(ctx_start, ctx_end)
         self.lhs: ExpressionToken = lhs
         self.rhs: ExpressionToken = rhs
-        self.value = None
+        self.values = {}
 
     def resolve(self, state):
-        if self.value is not None:
-            return self.value
+        if id(state) in self.values and self.values[id(state)][1] is not None:
+            return self.values[id(state)][1]
 
         lhs = self.lhs.resolve(state)
         rhs = self.rhs.resolve(state)
@@ -39,7 +44,7 @@ class InfixOperator(ExpressionToken):
         # is True
         invoke = self.fn if self.token else type(self).fn
         if not self.pure:
-            invoke = wrap_impure(self, invoke)
+            invoke = wrap_impure(self, invoke, state)
 
         if not isinstance(lhs, BaseDeferred) and not isinstance(rhs, BaseDeferred):
             return invoke(lhs, rhs)
@@ -65,17 +70,17 @@ class UnaryOperator(ExpressionToken):
     def __init__(self, ctx_start, ctx_end, operand: ExpressionToken):
         super().__init__(ctx_start, ctx_end)
         self.operand: ExpressionToken = operand
-        self.value = None
+        self.values = {}
 
     def resolve(self, state):
-        if self.value is not None:
-            return self.value
+        if id(state) in self.values and self.values[id(state)][1] is not None:
+            return self.values[id(state)][1]
 
         operand = self.operand.resolve(state)
 
         invoke = self.fn if self.token else type(self).fn
         if not self.pure:
-            invoke = wrap_impure(self, invoke)
+            invoke = wrap_impure(self, invoke, state)
 
         if not isinstance(operand, BaseDeferred):
             return invoke(operand)
